@@ -21,6 +21,9 @@ pub enum IoMode {
     Chop { max: usize },
     /// Like Chop, and returns ErrorKind::Interrupted before a transfer with probability 1/den.
     ChopIntr { max: usize, den: u32 },
+    /// Like Chop, and with probability 1/den a transfer is preceded by `burst` consecutive
+    /// ErrorKind::Interrupted results (a signal storm).
+    ChopBurst { max: usize, den: u32, burst: u32 },
 }
 
 #[derive(Clone, Copy, Serialize, Deserialize, PartialEq, Eq, Debug, PartialOrd, Ord)]
@@ -219,6 +222,7 @@ pub struct EnvInner {
     // write classes hit (C11 reach)
     pub split_probe: Option<Box<dyn FnMut(u32, u64, u64)>>,
     pub chunk_datas: Vec<Rc<RefCell<Vec<u8>>>>,
+    pub hole_big_writes: bool,
 }
 
 #[derive(Clone)]
@@ -251,6 +255,7 @@ impl Env {
             merge_count: 0,
             split_probe: None,
             chunk_datas: Vec::new(),
+            hole_big_writes: false,
         })))
     }
 
@@ -306,8 +311,24 @@ impl Env {
         SimFile::create(self, Role::Source, bytes)
     }
 
+    /// A sink that keeps what it is given in extents and, while `hole_big_writes` is set, turns
+    /// every write of 32 KiB or more into a hole (counted, not stored).
+    pub fn new_sparse_sink(&self) -> (SimFile, Rc<RefCell<SparseData>>) {
+        let mut f = SimFile::create(self, Role::Sink, Vec::new());
+        let d = Rc::new(RefCell::new(SparseData::default()));
+        f.sparse = Some(d.clone());
+        f.buffered = false;
+        (f, d)
+    }
+
+    pub fn new_sparse_source(&self, d: Rc<RefCell<SparseData>>) -> SimFile {
+        let mut f = SimFile::create(self, Role::Source, Vec::new());
+        f.sparse = Some(d);
+        f
+    }
+
     /// A source with `len` virtual zero bytes inserted at offset `at` of `bytes`.
-    pub fn new_sparse_source(&self, bytes: Vec<u8>, at: u64, len: u64) -> SimFile {
+    pub fn new_holed_source(&self, bytes: Vec<u8>, at: u64, len: u64) -> SimFile {
         let mut f = SimFile::create(self, Role::Source, bytes);
         f.hole = Some((at, len));
         f
@@ -368,6 +389,28 @@ impl EnvInner {
     }
 }
 
+/// A file larger than memory: only the extents that were stored exist, everything else is a hole.
+#[derive(Default)]
+pub struct SparseData {
+    /// (logical offset, bytes), ascending and non-overlapping
+    pub ext: Vec<(u64, Vec<u8>)>,
+    pub len: u64,
+}
+
+impl SparseData {
+    /// bytes [off, off+n) if they lie inside one stored extent
+    pub fn read_at(&self, off: u64, n: usize) -> Option<&[u8]> {
+        let i = self.ext.partition_point(|(s, _)| *s <= off).checked_sub(1)?;
+        let (s, b) = &self.ext[i];
+        let rel = (off - s) as usize;
+        if rel + n <= b.len() {
+            Some(&b[rel..rel + n])
+        } else {
+            None
+        }
+    }
+}
+
 pub struct SimFile {
     env: Env,
     pub id: u32,
@@ -376,12 +419,16 @@ pub struct SimFile {
     pos: u64,
     mode: IoMode,
     rng: Rng,
+    /// remaining Interrupted results of the current burst (ChopBurst)
+    burst_left: u32,
     /// accepted but not yet flushed bytes (buffered sinks/chunks only); they logically follow `data`
     pending: Vec<u8>,
     buffered: bool,
     /// sparse sources: `hole.1` virtual zero bytes sit at logical offset `hole.0` (a file larger than
     /// memory: the bytes after the hole live at logical offsets >= hole.0 + hole.1)
     hole: Option<(u64, u64)>,
+    /// sparse mode (files beyond 4 GiB): content lives in extents instead of `data`
+    sparse: Option<Rc<RefCell<SparseData>>>,
 }
 
 impl SimFile {
@@ -411,9 +458,11 @@ impl SimFile {
             pos: 0,
             mode,
             rng: Rng::new(seed),
+            burst_left: 0,
             pending: Vec::new(),
             buffered,
             hole: None,
+            sparse: None,
         }
     }
 
@@ -445,6 +494,18 @@ impl SimFile {
                     Some(1 + self.rng.usize_below(len.min(max.max(1))))
                 }
             }
+            IoMode::ChopBurst { max, den, burst } => {
+                if self.burst_left > 0 {
+                    self.burst_left -= 1;
+                    return None;
+                }
+                if self.rng.chance(1, den.max(2) as u64) {
+                    self.burst_left = burst.saturating_sub(1);
+                    None
+                } else {
+                    Some(1 + self.rng.usize_below(len.min(max.max(1))))
+                }
+            }
         }
     }
 }
@@ -470,9 +531,11 @@ impl Clone for SimFile {
             pos: self.pos,
             mode: self.mode,
             rng: Rng::new(seed),
+            burst_left: 0,
             pending: Vec::new(),
             buffered: false,
             hole: self.hole,
+            sparse: self.sparse.clone(),
         }
     }
 }
@@ -496,6 +559,42 @@ impl Read for SimFile {
         if let Some(f) = e.tick(IoKind::Read, self.id, Some(self.role)) {
             e.log(IoEvent { file: self.id, kind: IoKind::Read, off, req: buf.len() as u64, out: -2 });
             return Err(Self::fault_err(io_kind_for(f.err, IoKind::Read), f.k));
+        }
+        if let Some(sp) = self.sparse.clone() {
+            let sp = sp.borrow();
+            if self.pos >= sp.len || buf.is_empty() {
+                e.log(IoEvent { file: self.id, kind: IoKind::Read, off, req: buf.len() as u64, out: 0 });
+                return Ok(0);
+            }
+            let i = sp.ext.partition_point(|(s, _)| *s <= self.pos).checked_sub(1);
+            let hit = i.and_then(|i| {
+                let (s0, b) = &sp.ext[i];
+                let rel = (self.pos - s0) as usize;
+                if rel < b.len() {
+                    Some((i, rel))
+                } else {
+                    None
+                }
+            });
+            let Some((i, rel)) = hit else {
+                e.fx.inc("fired.read_inside_sparse_hole");
+                e.log(IoEvent { file: self.id, kind: IoKind::Read, off, req: buf.len() as u64, out: -5 });
+                return Err(io::Error::new(io::ErrorKind::InvalidData, "read inside a hole of the simulated sparse file (nothing is stored there)"));
+            };
+            let b = &sp.ext[i].1;
+            let want = buf.len().min(b.len() - rel);
+            let n = match self.schedule(want) {
+                None => {
+                    e.fx.inc("fired.eintr_read");
+                    e.log(IoEvent { file: self.id, kind: IoKind::Read, off, req: buf.len() as u64, out: -1 });
+                    return Err(io::Error::from(io::ErrorKind::Interrupted));
+                }
+                Some(n) => n,
+            };
+            buf[..n].copy_from_slice(&b[rel..rel + n]);
+            self.pos += n as u64;
+            e.log(IoEvent { file: self.id, kind: IoKind::Read, off, req: buf.len() as u64, out: n as i64 });
+            return Ok(n);
         }
         let (hole_at, hole_len) = self.hole.unwrap_or((u64::MAX, 0));
         if self.pos >= hole_at && self.pos < hole_at.saturating_add(hole_len) {
@@ -564,6 +663,26 @@ impl Write for SimFile {
         if buf.is_empty() {
             e.log(IoEvent { file: self.id, kind: IoKind::Write, off, req: 0, out: 0 });
             return Ok(0);
+        }
+        if let Some(sp) = self.sparse.clone() {
+            let mut sp = sp.borrow_mut();
+            let n = buf.len();
+            if self.pos != sp.len {
+                return Err(io::Error::new(io::ErrorKind::Unsupported, "sparse sinks are append-only"));
+            }
+            if e.hole_big_writes && n >= 32 * 1024 {
+                e.fx.inc("fired.big_write_turned_into_hole");
+            } else {
+                let at = sp.len;
+                crate::alloc::storage_scope(|| match sp.ext.last_mut() {
+                    Some((s0, b)) if *s0 + b.len() as u64 == at => b.extend_from_slice(buf),
+                    _ => sp.ext.push((at, buf.to_vec())),
+                });
+            }
+            sp.len += n as u64;
+            self.pos += n as u64;
+            e.log(IoEvent { file: self.id, kind: IoKind::Write, off, req: n as u64, out: n as i64 });
+            return Ok(n);
         }
         let mut want = buf.len();
         if self.role == Role::Sink {
@@ -665,7 +784,10 @@ impl Seek for SimFile {
             e.log(IoEvent { file: self.id, kind: IoKind::Seek, off: arg, req: code, out: -2 });
             return Err(Self::fault_err(io_kind_for(f.err, IoKind::Seek), f.k));
         }
-        let len = (self.data.borrow().len() + self.pending.len()) as i128 + self.hole.map(|h| h.1 as i128).unwrap_or(0);
+        let len = match &self.sparse {
+            Some(sp) => sp.borrow().len as i128,
+            None => (self.data.borrow().len() + self.pending.len()) as i128 + self.hole.map(|h| h.1 as i128).unwrap_or(0),
+        };
         let target: i128 = match to {
             SeekFrom::Start(x) => x as i128,
             SeekFrom::End(x) => len + x as i128,
